@@ -58,3 +58,60 @@ package policy
 //@     invariant acceptedValid: forall a :: 0 <= a && a < len(acceptedKeys) ==> envValid(env, acceptedKeys[a].KeyID) && pHasKey(principal, acceptedKeys[a].KeyID)
 //@     invariant acceptedDistinct: forall a, b :: 0 <= a && a < b && b < len(acceptedKeys) ==> acceptedKeys[a].KeyID != acceptedKeys[b].KeyID
 //@     invariant pendingUnused: forall a :: rangeindex < a && a < len(acceptedKeys) ==> !setHas(usedKeyIDs, acceptedKeys[a].KeyID)
+
+//@ # ---- C12 / C16: applying staged policy ----
+//@ spec selfVerified(s *State) bool
+//@ spec stateCommit(s *State) Hash
+//@ # consistent(ref): the reference and its latest log entry agree (both absent, or both present and equal)
+//@ define consistent(ref string) bool = (refSet[ref] <==> (refSet[rsl.Ref] && hasRefEntry(refTip[rsl.Ref], ref))) && (refSet[ref] ==> pTarget(cmsg(latestRefEntry(refTip[rsl.Ref], ref))) == refTip[ref])
+
+//@ func (*State).Verify -> (err)
+//@   trusted
+//@   pure
+//@   ensures err == nil ==> selfVerified(s)
+
+//@ func LoadCurrentState -> (st, err)
+//@   trusted
+//@   assigns ghost faults
+//@   ensures err == nil ==> st != nil && refSet[rsl.Ref] && hasRefEntry(refTip[rsl.Ref], ref) && stateCommit(st) == pTarget(cmsg(latestRefEntry(refTip[rsl.Ref], ref)))
+//@   ensures faults >= old(faults) && (faults > old(faults) ==> err != nil)
+
+//@ # Assumed for now: reconciliation keeps the policy reference, leaves both refs consistent with the log on success.
+//@ func ReconcileStaging -> (err)
+//@   trusted
+//@   assigns ghost faults, ghost refTip, ghost refSet, ghost objSet
+//@   ensures err == nil ==> consistent(PolicyRef) && consistent(PolicyStagingRef)
+//@   ensures refSet[PolicyRef] == old(refSet[PolicyRef]) && refTip[PolicyRef] == old(refTip[PolicyRef])
+//@   ensures faults >= old(faults) && (faults > old(faults) ==> err != nil)
+//@   ensures (old(refSet[rsl.Ref]) ==> pOK(cmsg(old(refTip[rsl.Ref])))) ==> (refSet[rsl.Ref] ==> pOK(cmsg(refTip[rsl.Ref])))
+
+//@ func [C12,C16] Apply -> (err)
+//@   requires repo != nil
+//@   requires logTipWellFormed: refSet[rsl.Ref] ==> pOK(cmsg(refTip[rsl.Ref]))
+//@   assigns ghost faults, ghost refTip, ghost refSet, ghost objSet, fresh(rsl.ReferenceEntry.*), fresh(rsl.AnnotationEntry.*), fresh(rsl.PropagationEntry.*), fresh(elems Hash), fresh(elems *rsl.AnnotationEntry), fresh(elems rsl.GetLatestReferenceUpdaterEntryOption)
+//@   ensures publishesStaged: err == nil ==> refSet[PolicyRef] && refSet[PolicyStagingRef] && refTip[PolicyRef] == refTip[PolicyStagingRef]
+//@   ensures verified: err == nil ==> selfVerified(state) && stateCommit(state) == refTip[PolicyRef]
+//@   ensures descends: err == nil && old(refSet[PolicyRef]) ==> anc(refTip[PolicyRef], old(refTip[PolicyRef]))
+//@   ensures recordedBySameOperation: err == nil ==> refSet[rsl.Ref] && pOK(cmsg(refTip[rsl.Ref])) && pKind(cmsg(refTip[rsl.Ref])) == 1 && pRef(cmsg(refTip[rsl.Ref])) == PolicyRef && pTarget(cmsg(refTip[rsl.Ref])) == refTip[PolicyRef]
+//@   ensures policyRefRestoredOnError: err != nil && faults <= old(faults) + 1 ==> refSet[PolicyRef] == old(refSet[PolicyRef]) && (refSet[PolicyRef] ==> refTip[PolicyRef] == old(refTip[PolicyRef]))
+
+//@ func (*StateMetadata).WriteTree -> (id, err)
+//@   trusted
+//@   assigns ghost faults, ghost objSet
+//@   ensures faults >= old(faults) && (faults > old(faults) ==> err != nil)
+
+//@ func [C16] (*State).Commit -> (err)
+//@   requires s != nil && repo != nil && s.Metadata != nil
+//@   requires noNilHooks: forall(st, tuf.HookStage, forall(i, has(s.Hooks, st) && 0 <= i && i < len(s.Hooks[st]) ==> notNil(s.Hooks[st][i])))
+//@   requires noNilControllers: forall(k, string, has(s.ControllerMetadata, k) ==> s.ControllerMetadata[k] != nil)
+//@   requires logTipWellFormed: refSet[rsl.Ref] ==> pOK(cmsg(refTip[rsl.Ref]))
+//@   assigns ghost faults, ghost refTip, ghost refSet, ghost objSet, fresh(rsl.ReferenceEntry.*), fresh(rsl.AnnotationEntry.*), fresh(rsl.PropagationEntry.*), fresh(elems Hash), fresh(elems gitstore.TreeEntry)
+//@   ensures stagingRestoredOnError: err != nil && faults <= old(faults) + 1 ==> refSet[PolicyStagingRef] == old(refSet[PolicyStagingRef]) && (refSet[PolicyStagingRef] ==> refTip[PolicyStagingRef] == old(refTip[PolicyStagingRef]))
+//@   ensures recorded: err == nil && createRSLEntry ==> refSet[PolicyStagingRef] && refSet[rsl.Ref] && pOK(cmsg(refTip[rsl.Ref])) && pKind(cmsg(refTip[rsl.Ref])) == 1 && pRef(cmsg(refTip[rsl.Ref])) == PolicyStagingRef && pTarget(cmsg(refTip[rsl.Ref])) == refTip[PolicyStagingRef]
+//@   ensures othersUntouched: refSet[PolicyRef] == old(refSet[PolicyRef]) && refTip[PolicyRef] == old(refTip[PolicyRef])
+//@   loop 1:
+//@     invariant refsUntouched: refTip == old(refTip) && refSet == old(refSet) && faults == old(faults)
+//@   loop 2:
+//@     invariant refsUntouched: refTip == old(refTip) && refSet == old(refSet) && faults == old(faults)
+//@   loop 3:
+//@     invariant refsUntouched: refTip == old(refTip) && refSet == old(refSet) && faults == old(faults)
